@@ -317,8 +317,7 @@ class World(EventDispatcher):
                     del self._components[component_type]
 
                 # Event handling
-                if (hasattr(component, '__events__')
-                        and ON_REMOVE_EVENT_NAME in component.__events__):
+                if hasattr(component, '__events__'):
                     # Code replication
                     # If dispatching is enabled, call on_remove directly
                     # to gain performance. Otherwise an event is dispatched
@@ -327,8 +326,9 @@ class World(EventDispatcher):
                         getattr(component,
                                 component.__events__[ON_REMOVE_EVENT_NAME])(
                                     entity, self)
-                    # on_add exists but dispatching is disabled
-                    elif not self._dispatch_enabled:
+                    # on_remove exists but dispatching is disabled
+                    elif (ON_REMOVE_EVENT_NAME in component.__events__
+                            and not self._dispatch_enabled):
                         self.dispatch(ON_SINGLE_DISPATCH_EVENT_NAME,
                                       ON_REMOVE_EVENT_NAME,
                                       component, entity, self)
